@@ -59,10 +59,10 @@ structure Tx where
   payerSigners : Option (List Nat)  -- recovered signer addresses of GasPayerSigs
   subs : List Tx := []
 
+/-- the account state. The block's gas pool (`types.GasPool`) is NOT part of it: it is not journalled,
+    so a discarded candidate gets its accounts back but not the gas it had taken from the pool. -/
 structure St where
   accts : Nat → Acct
-  gp : Nat                -- gas pool
-  fees : Int := 0         -- fees credited to the miner's income address so far by box sub-txs
 
 inductive Err where
   | notSigned | signerMismatch | totalWeight | gasPayer | sigError
@@ -237,115 +237,132 @@ def doSetSigners (s : St) (from' target : Nat) (l : List (Nat × Nat)) : Except 
   else if sumNat (l.map (·.2)) < 100 then .error .totalWeight
   else .ok (modAcct s target (fun a => { a with signers := l }))
 
-/-- `applyTx` for a non-box tx. Returns the new state and gasUsed, or the error that makes the tx invalid. -/
-def applySimple (c : Ctx) (s : St) (tx : Tx) : Except Err (St × Nat) :=
+/-- the body of a non-box tx (`handleTx`) -/
+def body (c : Ctx) (s : St) (tx : Tx) (initialBal : Int) : Except Err St :=
+  match tx.kind with
+  | .transfer to v =>
+    if (s.accts tx.sender).bal < v then .error .insufficientBalance
+    else if v = 0 then .ok s else .ok (transfer s tx.sender to v)
+  | .vote cand => doVote c s tx.sender cand initialBal
+  | .register amt unreg inc => doRegister c s tx.sender amt unreg inc
+  | .setSigners tg l => doSetSigners s tx.sender tg l
+  | .box => .error .boxInBox
+  | .other => .error .txType
+
+/-- `applyTx` for a non-box tx with gas pool `gp`. Returns the new state, the new gas pool and gasUsed —
+    or the error that makes the tx invalid together with what is LEFT of the gas pool (a tx that fails
+    after `buyGas` does not give its gas limit back to the pool). -/
+def applySimple (c : Ctx) (s : St) (gp : Nat) (tx : Tx) : Except (Err × Nat) (St × Nat × Nat) :=
   match verifySigs c.dedup s tx with
-  | some e => .error e
+  | some e => .error (e, gp)
   | none =>
     let initialBal := (s.accts tx.sender).bal
     -- buyGas
     let maxFee := (tx.gasLimit : Int) * tx.gasPrice
-    if (s.accts tx.payer).bal < maxFee then .error .insufficientForGas
-    else if s.gp < tx.gasLimit then .error .gasLimitReached
+    if (s.accts tx.payer).bal < maxFee then .error (.insufficientForGas, gp)
+    else if gp < tx.gasLimit then .error (.gasLimitReached, gp)
     else
-      let s := setBal { s with gp := s.gp - tx.gasLimit } tx.payer ((s.accts tx.payer).bal - maxFee)
+      let gp1 := gp - tx.gasLimit
+      let s := setBal s tx.payer ((s.accts tx.payer).bal - maxFee)
       match intrinsic tx with
-      | none => .error .txType
+      | none => .error (.txType, gp1)
       | some ig =>
-        if tx.gasLimit < ig then .error .outOfGas
+        if tx.gasLimit < ig then .error (.outOfGas, gp1)
         else
           let rest := tx.gasLimit - ig
-          let body : Except Err St :=
-            match tx.kind with
-            | .transfer to v =>
-              if (s.accts tx.sender).bal < v then .error .insufficientBalance
-              else if v = 0 then .ok s else .ok (transfer s tx.sender to v)
-            | .vote cand => doVote c s tx.sender cand initialBal
-            | .register amt unreg inc => doRegister c s tx.sender amt unreg inc
-            | .setSigners tg l => doSetSigners s tx.sender tg l
-            | .box => .error .boxInBox
-            | .other => .error .txType
-          match body with
-          | .error e => .error e
+          match body c s tx initialBal with
+          | .error e => .error (e, gp1)
           | .ok s =>
             -- refundGas
-            let s := setBal { s with gp := s.gp + rest } tx.payer ((s.accts tx.payer).bal + (rest : Int) * tx.gasPrice)
-            .ok (s, tx.gasLimit - rest)
+            let s := setBal s tx.payer ((s.accts tx.payer).bal + (rest : Int) * tx.gasPrice)
+            .ok (s, gp1 + rest, tx.gasLimit - rest)
 
-/-- the sub-transactions of a box, `RunBoxTxs`: all or nothing; returns gas and fee totals -/
-def applySubs (c : Ctx) : St → List Tx → Except Err (St × Nat × Int)
-  | s, [] => .ok (s, 0, 0)
-  | s, t :: ts =>
-    match applySimple c s t with
+/-- the sub-transactions of a box, `RunBoxTxs`: all or nothing; returns gas pool, gas and fee totals -/
+def applySubs (c : Ctx) : St → Nat → List Tx → Except (Err × Nat) (St × Nat × Nat × Int)
+  | s, gp, [] => .ok (s, gp, 0, 0)
+  | s, gp, t :: ts =>
+    match applySimple c s gp t with
     | .error e => .error e
-    | .ok (s, g) =>
-      match applySubs c s ts with
+    | .ok (s, gp, g) =>
+      match applySubs c s gp ts with
       | .error e => .error e
-      | .ok (s, g', f') => .ok (s, g + g', (g : Int) * t.gasPrice + f')
+      | .ok (s, gp, g', f') => .ok (s, gp, g + g', (g : Int) * t.gasPrice + f')
 
 /-- `applyTx` -/
-def applyTx (c : Ctx) (s : St) (tx : Tx) : Except Err (St × Nat) :=
+def applyTx (c : Ctx) (s : St) (gp : Nat) (tx : Tx) : Except (Err × Nat) (St × Nat × Nat) :=
   match tx.kind with
   | .box =>
     match verifySigs c.dedup s tx with
-    | some e => .error e
+    | some e => .error (e, gp)
     | none =>
       let maxFee := (tx.gasLimit : Int) * tx.gasPrice
-      if (s.accts tx.payer).bal < maxFee then .error .insufficientForGas
-      else if s.gp < tx.gasLimit then .error .gasLimitReached
+      if (s.accts tx.payer).bal < maxFee then .error (.insufficientForGas, gp)
+      else if gp < tx.gasLimit then .error (.gasLimitReached, gp)
       else
-        let s := setBal { s with gp := s.gp - tx.gasLimit } tx.payer ((s.accts tx.payer).bal - maxFee)
+        let gp1 := gp - tx.gasLimit
+        let s := setBal s tx.payer ((s.accts tx.payer).bal - maxFee)
         match intrinsic tx with
-        | none => .error .txType
+        | none => .error (.txType, gp1)
         | some ig =>
-          if tx.gasLimit < ig then .error .outOfGas
+          if tx.gasLimit < ig then .error (.outOfGas, gp1)
           else
             let rest := tx.gasLimit - ig
-            match applySubs c s tx.subs with
+            match applySubs c s gp1 tx.subs with
             | .error e => .error e
-            | .ok (s, subGas, subFee) =>
+            | .ok (s, gp2, subGas, subFee) =>
               let s := chargeForGas s c.miner subFee      -- RunBoxTxs pays the sub-tx fees itself …
-              let s := setBal { s with gp := s.gp + rest } tx.payer ((s.accts tx.payer).bal + (rest : Int) * tx.gasPrice)
-              .ok (s, tx.gasLimit - rest + subGas)          -- … and the caller adds their gas to the box's gasUsed
-  | _ => applySimple c s tx
+              let s := setBal s tx.payer ((s.accts tx.payer).bal + (rest : Int) * tx.gasPrice)
+              .ok (s, gp2 + rest, tx.gasLimit - rest + subGas)   -- … and the caller adds their gas to the box's gasUsed
+  | _ => applySimple c s gp tx
 
-/-- miner path (`ApplyTxs`): a failing candidate is discarded — the state is what it was (C07) -/
-def mine (c : Ctx) : St → List Tx → St × List (Nat × Nat) × List (Nat × String) × Nat × Int
-  | s, [] => (s, [], [], 0, 0)
-  | s, t :: ts =>
-    if s.gp < LemoGen.Gas.OrdinaryTxGas then (s, [], [], 0, 0)   -- "Not enough gas for further transactions": stop
+/-- result of the miner path -/
+structure Mined where
+  st : St
+  gp : Nat
+  sel : List (Nat × Nat) := []        -- (tx id, gasUsed) in block order
+  inv : List (Nat × String) := []     -- invalid txs (id, error)
+  gas : Nat := 0
+  fee : Int := 0
+
+/-- miner path (`ApplyTxs`): a failing candidate is discarded — the ACCOUNT state is what it was (C07);
+    the gas pool keeps what the failed attempt left of it -/
+def mine (c : Ctx) : St → Nat → List Tx → Mined
+  | s, gp, [] => { st := s, gp := gp }
+  | s, gp, t :: ts =>
+    if gp < LemoGen.Gas.OrdinaryTxGas then { st := s, gp := gp }   -- "Not enough gas for further transactions": stop
     else
-    match applyTx c s t with
-    | .error e =>
+    match applyTx c s gp t with
+    | .error (e, gp') =>
       -- ErrGasLimitReached is skipped silently, every other error marks the tx invalid
-      let (s', sel, inv, g, f) := mine c s ts
-      (s', sel, (if e = .gasLimitReached then inv else (t.id, e.name) :: inv), g, f)
-    | .ok (s1, g1) =>
-      let (s', sel, inv, g, f) := mine c s1 ts
-      (s', (t.id, g1) :: sel, inv, g1 + g, (g1 : Int) * t.gasPrice + f)
+      let r := mine c s gp' ts
+      { r with inv := (if e = .gasLimitReached then r.inv else (t.id, e.name) :: r.inv) }
+    | .ok (s1, gp1, g1) =>
+      let r := mine c s1 gp1 ts
+      { r with sel := (t.id, g1) :: r.sel, gas := g1 + r.gas, fee := (g1 : Int) * t.gasPrice + r.fee }
 
 /-- the miner's selection as (tx, gasUsed) pairs — what goes into the block body -/
-def mineSel (c : Ctx) : St → List Tx → List (Tx × Nat)
-  | _, [] => []
-  | s, t :: ts =>
-    if s.gp < LemoGen.Gas.OrdinaryTxGas then []
+def mineSel (c : Ctx) : St → Nat → List Tx → List (Tx × Nat)
+  | _, _, [] => []
+  | s, gp, t :: ts =>
+    if gp < LemoGen.Gas.OrdinaryTxGas then []
     else
-    match applyTx c s t with
-    | .error _ => mineSel c s ts
-    | .ok (s1, g1) => (t, g1) :: mineSel c s1 ts
+    match applyTx c s gp t with
+    | .error (_, gp') => mineSel c s gp' ts
+    | .ok (s1, gp1, g1) => (t, g1) :: mineSel c s1 gp1 ts
 
-/-- validator path (`Process`): abort on the first failing tx or on a gasUsed mismatch -/
-def validate (c : Ctx) : St → List (Tx × Nat) → Option (St × Nat × Int)
-  | s, [] => some (s, 0, 0)
-  | s, (t, claimed) :: ts =>
-    match applyTx c s t with
+/-- validator path (`Process`): abort on the first failing tx or on a gasUsed mismatch.
+    Returns the state, the gas pool left, Σ gas and Σ fee. -/
+def validate (c : Ctx) : St → Nat → List (Tx × Nat) → Option (St × Nat × Nat × Int)
+  | s, gp, [] => some (s, gp, 0, 0)
+  | s, gp, (t, claimed) :: ts =>
+    match applyTx c s gp t with
     | .error _ => none
-    | .ok (s1, g1) =>
+    | .ok (s1, gp1, g1) =>
       if g1 ≠ claimed then none
       else
-        match validate c s1 ts with
+        match validate c s1 gp1 ts with
         | none => none
-        | some (s', g, f) => some (s', g1 + g, (g1 : Int) * t.gasPrice + f)
+        | some (s', gp', g, f) => some (s', gp', g1 + g, (g1 : Int) * t.gasPrice + f)
 
 /-- `ChangeVotesByBalance` over the address universe `addrs` (any order: additions commute):
     `start` are the balances when the block began. -/
@@ -359,11 +376,11 @@ def votesByBalance (c : Ctx) (start : Nat → Int) (s : St) : List Nat → St
     votesByBalance c start s as
 
 /-- a whole block on the miner path: ApplyTxs, chargeForGas, Finalize (no term reward / refund height) -/
-def mineBlock (c : Ctx) (s : St) (txs : List Tx) (addrs : List Nat) : St × List (Nat × Nat) × List (Nat × String) × Nat :=
+def mineBlock (c : Ctx) (s : St) (gp : Nat) (txs : List Tx) (addrs : List Nat) : St × List (Nat × Nat) × List (Nat × String) × Nat :=
   let start := fun a => (s.accts a).bal
-  let (s1, sel, inv, g, f) := mine c s txs
-  let s2 := chargeForGas s1 c.miner f
-  (votesByBalance c start s2 addrs, sel, inv, g)
+  let r := mine c s gp txs
+  let s2 := chargeForGas r.st c.miner r.fee
+  (votesByBalance c start s2 addrs, r.sel, r.inv, r.gas)
 
 def sumBal (s : St) (addrs : List Nat) : Int := (addrs.map fun a => (s.accts a).bal).sum
 
